@@ -402,7 +402,7 @@ func lambdaV[O any](n *nodeRT) *compose.Lambda {
 			ctl := CtlFrom(ctx)
 			e := ctl.Log.begin(n.key, n.path, "I")
 			defer ctl.Log.exit(e)
-			e.Opts = renderOpts(opts)
+			ctl.Log.setOpts(e, renderOpts(opts))
 			ctl.Log.setIn(e, Canon(in))
 			out, err := n.compute(ctx, ctl, e, in)
 			ctl.Log.finish(e, Canon(out), err)
@@ -420,7 +420,7 @@ func lambdaV[O any](n *nodeRT) *compose.Lambda {
 			ctl := CtlFrom(ctx)
 			e := ctl.Log.begin(n.key, n.path, "S")
 			defer ctl.Log.exit(e)
-			e.Opts = renderOpts(opts)
+			ctl.Log.setOpts(e, renderOpts(opts))
 			ctl.Log.setIn(e, Canon(in))
 			out, err := n.compute(ctx, ctl, e, in)
 			ctl.Log.finish(e, Canon(out), err)
@@ -438,7 +438,7 @@ func lambdaV[O any](n *nodeRT) *compose.Lambda {
 			ctl := CtlFrom(ctx)
 			e := ctl.Log.begin(n.key, n.path, "C")
 			defer ctl.Log.exit(e)
-			e.Opts = renderOpts(opts)
+			ctl.Log.setOpts(e, renderOpts(opts))
 			v, err := drainV(in)
 			if err != nil {
 				ctl.Log.finish(e, "", err)
@@ -461,7 +461,7 @@ func lambdaV[O any](n *nodeRT) *compose.Lambda {
 			ctl := CtlFrom(ctx)
 			e := ctl.Log.begin(n.key, n.path, "T")
 			defer ctl.Log.exit(e)
-			e.Opts = renderOpts(opts)
+			ctl.Log.setOpts(e, renderOpts(opts))
 			if n.spec.Kind == Rename {
 				return n.lazyRename(ctx, ctl, e, in), nil
 			}
@@ -609,7 +609,7 @@ func lambdaS[O any](n *nodeRT) *compose.Lambda {
 		ctl := CtlFrom(ctx)
 		e := ctl.Log.begin(n.key, n.path, para)
 		defer ctl.Log.exit(e)
-		e.Opts = renderOpts(opts)
+		ctl.Log.setOpts(e, renderOpts(opts))
 		ctl.Log.setIn(e, in)
 		out, err := n.compute(ctx, ctl, e, in)
 		ctl.Log.finish(e, Canon(out), err)
